@@ -565,6 +565,15 @@ func intentRequest(r *hx.Rand, w *World) ReqSpec {
 		av := hx.Pick(r, []acceptVariant{acceptVariants[3], acceptVariants[9], acceptVariants[10], acceptVariants[18]})
 		q.Accept, q.AcceptKind = av.lines, av.kind
 	}
+	if r.Intn(100) < 8 {
+		// several instances, one per line, at least one acceptable at any position: still served
+		for tries := 0; tries < 8; tries++ {
+			if ac := randomAccept(r); ac.anyAcceptable && strings.HasSuffix(ac.kind, "/lines") {
+				q.Accept, q.AcceptKind = ac.lines, ac.kind
+				break
+			}
+		}
+	}
 	q.Body, q.Label = bodyFor(r, w, comps, famIndex(fam))
 	return q
 }
@@ -585,6 +594,10 @@ func genRequest(r *hx.Rand, w *World) ReqSpec {
 		av = hx.Pick(r, acceptVariants)
 	}
 	q.Accept, q.AcceptKind = av.lines, av.kind
+	if r.Intn(100) < 12 {
+		ac := randomAccept(r)
+		q.Accept, q.AcceptKind = ac.lines, ac.kind
+	}
 	qv := queryVariants[0]
 	if r.Intn(100) < 15 {
 		qv = hx.Pick(r, queryVariants)
